@@ -223,7 +223,10 @@ func (x *Exec) runTransaction(c *Contract, key string, fn Val, cbArgs []Val, set
 	var res Val
 	x.callFunction(fn.Fn, fn.Binds, cbArgs, nil, func(v Val) { res = v; setRes(v) }, p)
 	if rollback && res.T != "" {
-		failed := "(not (= " + x.termOf(res) + " ANil))"
+		// bolt, badger and leveldb discard the writes of a failed function; the pebble
+		// driver has no transactions and keeps them: either may happen
+		discards := x.smt.fresh("txn.discards", "Bool")
+		failed := "(and " + discards + " (not (= " + x.termOf(res) + " ANil)))"
 		x.setSV("KV.dom", ghostSVs["KV.dom"], ite(failed, preDom, x.getSV("KV.dom", ghostSVs["KV.dom"])))
 		x.setSV("KV.val", ghostSVs["KV.val"], ite(failed, preVal, x.getSV("KV.val", ghostSVs["KV.val"])))
 		x.V.noteAssumed(key + " discards the writes of its callback when the callback returns an error")
